@@ -62,11 +62,13 @@ def chunk_size(tier: str) -> int:
 def gen_case(seed: int, case_id: int, tier: str) -> dict:
     tape = Tape(seed=derive_seed(seed, "C17-case", case_id))
     n = tape.int(2, 3 if tier == "quick" else 4, "n_atoms")
-    kinds = ["relaxation", "dephasing", "depolarizing", "eff2", "eff3-leak", "relax+deph", "deph+depol", "eff2+relax", "eff3-sym", "eff3-block"]
+    kinds = ["relaxation", "dephasing", "depolarizing", "eff2", "eff3-leak", "relax+deph", "deph+depol", "eff2+relax", "eff3-sym", "eff3-block", "relax+spam"]
     tape.choice(kinds, "noise")  # (kept so that later draws do not shift)
     kind = kinds[case_id % len(kinds)]  # round robin: every batch of 10 cases covers every noise configuration
     if kind.startswith("eff3"):
         n = min(n, 3)
+    if kind == "relax+spam":
+        n = 4  # keeps "fewer than two well-prepared atoms" (which emu-mps refuses) rare
     spacing = round(tape.float(7.5, 10.0, "spacing"), 2)
     atoms = [[f"q{i}", i * spacing, 0.0] for i in range(n)]
     nsteps = tape.int(4, 12, "n_steps")
@@ -85,6 +87,10 @@ def gen_case(seed: int, case_id: int, tier: str) -> dict:
         noise = {"depolarizing_rate": round(tot, 4)}
     elif kind == "relax+deph":
         noise = {"relaxation_rate": round(tot * a, 4), "dephasing_rate": round(tot * (1 - a), 4)}
+    elif kind == "relax+spam":
+        # Lindblad noise together with shot-to-shot state-preparation errors: trajectories differ in which atoms are
+        # dark, so there is no single master equation to compare with; the per-trajectory invariants still apply
+        noise = {"relaxation_rate": round(tot, 4), "state_prep_error": 0.05}
     elif kind == "deph+depol":
         noise = {"dephasing_rate": round(tot * a, 4), "depolarizing_rate": round(tot * (1 - a), 4)}
     elif kind in ("eff2", "eff2+relax"):
@@ -147,7 +153,9 @@ def run_chunk(case: dict, tier: str, seeds: tuple, k: int, want_model: bool) -> 
 
             wrap_method(inc.rb, mb.MPSBackend, "_run_from_sequence_data", before=before, after=after)
             wrap_method(inc.rb, mi.NoisyMPSBackendImpl, "do_random_quantum_jump", before=jb, required=False)
+            norms.install(inc.rb)
 
+        norms = M.NormProbe()
         seq = S.build_sequence(case["scn"])
         cfg = dict(case["cfg"])
         cfg["n_trajectories"] = k
@@ -155,9 +163,15 @@ def run_chunk(case: dict, tier: str, seeds: tuple, k: int, want_model: bool) -> 
         out = M.run_incarnation(world, M.mps_run_fn(seq, case["scn"], cfg, autosave_dt=None), seeds=seeds, setup=setup)
         V: list[dict] = []
         desc = {"case": case["case_id"], "kind": case["kind"], "atoms": case["n"], "noise": case["cfg"]["noise"], "T": case["T"], "dt": case["cfg"]["dt"], "drive": case["scn"]["ops"][0], "times": case["times"]}
+        spam = bool(case["cfg"]["noise"].get("state_prep_error"))
+        if out.error is not None and spam and "mps.py:make" in (out.error_site or ""):
+            # emu-mps refuses a trajectory with fewer than two well-prepared atoms (C25's subject): chunk skipped
+            return {"violations": [], "sums": None, "desc": desc, "n": 0, "jumps": 0, "digest": world.log.digest(), "skipped": "fewer-than-two-well-prepared-atoms"}
         if out.error is not None:
             V.append({"clause": "C17.run-raised", "site": out.error_site or "?", "msg": f"noisy run raised {out.error!r} :: {desc}"})
             return {"violations": V, "sums": None, "desc": desc, "n": 0, "jumps": 0, "digest": world.log.digest()}
+        if norms.worst > 1e-9:
+            V.append({"clause": "C17.state-not-normalised", "site": "spam" if spam else "lindblad", "msg": f"an observable was handed a state of norm {norms.worst_at[2]!r} ({norms.worst_at[0]} at t={norms.worst_at[1]}); every trajectory must report observables of a normalised state ({norms.calls} observable calls checked) :: {desc}"})
         # per-trajectory invariants + accumulation
         comps: dict[str, Any] = {}
         nj = 0
@@ -180,7 +194,7 @@ def run_chunk(case: dict, tier: str, seeds: tuple, k: int, want_model: bool) -> 
         seen = set()
         V = [v for v in V if not ((v["clause"], v["site"]) in seen or seen.add((v["clause"], v["site"])))]
         model = None
-        if want_model and "data" in captured:
+        if want_model and "data" in captured and not spam:
             sd = captured["data"]
             mod = LB.evolve(
                 np.real(sd.omega.numpy()), np.real(sd.delta.numpy()), np.real(sd.phi.numpy()),
@@ -230,6 +244,7 @@ def run_one(tape: Tape, tier: str, opts: dict) -> dict:
         "c17": {"case": case_id, "chunk": chunk, "sums": r["sums"], "model": r.get("model"), "n": r["n"], "desc": r["desc"]},
         "sim_ns": case["T"] * r["n"],
         "faults": {"seeded_jump_schedules": r["n"]},
+        "skipped": r.get("skipped"),
     }
 
 
